@@ -139,6 +139,16 @@ pub(crate) fn observe(ev: AllocEvent, addr: usize, size: usize, align: usize) {
     }
 }
 
+/// Puts the collector state of the current thread back to its initial value, so that a simulator can run several
+/// independent histories on one thread: the buffer is emptied exactly as its thread-local destructor would do
+/// (objects still inside stay allocated and are never looked at again), counters and configuration are reset.
+pub fn reset_thread_state() {
+    let _ = POSSIBLE_CYCLES.try_with(|pc| while pc.remove_first().is_some() {});
+    let _ = try_state(|s| s.verif_reset());
+    #[cfg(feature = "auto-collect")]
+    let _ = crate::config::config(|c| *c = Default::default());
+}
+
 /// Number of probe counters.
 pub const N_PROBES: usize = 32;
 
